@@ -879,11 +879,28 @@ def _tlapm(d, timeout=900, stretch=1, threads=8):
     import re
     import subprocess
 
-    p = subprocess.run(["tlapm", "--threads", str(threads), "--stretch", str(stretch), "--cleanfp", "Proofs.tla"], cwd=d, capture_output=True, text=True, timeout=timeout)
-    out = p.stdout + p.stderr
+    import signal
+
+    # own process group: back-end provers that outlive tlapm (an SMT solver that does not return on a failing obligation) are killed with it
+    p = subprocess.Popen(["tlapm", "--threads", str(threads), "--stretch", str(stretch), "--cleanfp", "Proofs.tla"], cwd=d, stdout=subprocess.PIPE,
+                         stderr=subprocess.PIPE, text=True, start_new_session=True)
+    try:
+        so, se = p.communicate(timeout=timeout)
+    except subprocess.TimeoutExpired:
+        so, se = "", "tlapm: time limit of the harness reached"
+    finally:
+        try:
+            os.killpg(p.pid, signal.SIGKILL)
+        except (ProcessLookupError, PermissionError):
+            pass
+        try:
+            p.wait(timeout=10)
+        except Exception:  # noqa: BLE001
+            pass
+    out = so + se
     m = re.search(r"All (\d+) obligations? proved", out)
     f = re.search(r"(\d+)/(\d+) obligations failed", out)
-    return dict(rc=p.returncode, proved=int(m.group(1)) if m else None, failed=int(f.group(1)) if f else 0, out=out)
+    return dict(rc=p.returncode if p.returncode is not None else -9, proved=int(m.group(1)) if m else None, failed=int(f.group(1)) if f else 0, out=out)
 
 
 def phase_proofs(ctx, phase):
